@@ -208,13 +208,19 @@ func (e *Enc) get(st *State, key, sort string) Term {
 		return t
 	}
 	if st.epoch != "" && (strings.HasPrefix(key, "HS.") || strings.HasPrefix(key, "HM.")) {
-		name := key + "@" + st.epoch
-		e.B.declTop(name, fmt.Sprintf("(declare-const %s %s)", name, sort))
+		// a heap first touched after a whole-heap havoc: fresh, positional
+		name := e.baseHeap(st, key, "@"+st.epoch, sort)
 		st.m[key] = name
 		return name
 	}
 	name := key + "@entry"
 	decl := fmt.Sprintf("(declare-const %s %s)", name, sort)
+	if strings.HasPrefix(key, "HS.") {
+		e.B.declTop("alloc@entry", "(declare-const alloc@entry Int)\n(assert (<= alloc@entry 0))")
+		if ax := e.heapWFAxiom(name, key, "alloc@entry"); ax != "" {
+			decl += "\n" + ax
+		}
+	}
 	switch key {
 	case "alloc":
 		// fresh references are negative; global cells have positive references
@@ -225,6 +231,16 @@ func (e *Enc) get(st *State, key, sort string) Term {
 	}
 	e.B.declTop(name, decl)
 	return name
+}
+
+// baseHeap declares a fresh (havocked) version of a heap at the current position
+// together with its well-typed-heap axiom for the state's allocation mark.
+func (e *Enc) baseHeap(st *State, key, tag, sort string) Term {
+	n := e.B.declConst(key+tag, sort)
+	if ax := e.heapWFAxiom(n, key, e.alloc(st)); ax != "" {
+		e.B.emit(ax)
+	}
+	return n
 }
 
 func (e *Enc) set(st *State, key string, sort string, t Term) {
@@ -330,6 +346,10 @@ func (e *Enc) wf(v Term, t types.Type, st *State, depth int) Term {
 		return fmt.Sprintf("(and (>= %s %s) (or (= %s 0) (= (chtype %s) %d)))", v, e.alloc(st), v, v, e.B.typeID(u.Elem()))
 	case *types.Map:
 		return "(>= " + v + " " + e.alloc(st) + ")"
+	case *types.Interface:
+		// a numeric dynamic type bounds the payload (MakeInterface stores the
+		// in-range value of that type)
+		return e.ifacePayloadWF(v)
 	case *types.Struct:
 		if depth <= 0 {
 			return "true"
